@@ -340,7 +340,7 @@ func describeAt(at [4]bool) string {
 }
 
 // checkDrainedObserver: PH2 - the list call of Peek / Search is guarded by n > 0.
-func checkDrainedObserver(c rc, fn *ssa.Function, typ string, call ssa.CallInstruction, what string) {
+func checkDrainedObserver(c rc, fn *ssa.Function, typ string, call ssa.Instruction, what string) {
 	p := c.p
 	at, found := nGuard(fn, call.Block(), typ)
 	why := "the list is consulted whatever n is"
@@ -360,22 +360,16 @@ func checkDrainedObserver(c rc, fn *ssa.Function, typ string, call ssa.CallInstr
 func checkDListPop(c rc, pop, stackPop *ssa.Function, typ string) {
 	p := c.p
 	fname := p.FuncName(pop)
-	var ret *ssa.Return
+	var rets []*ssa.Return
 	for _, b := range pop.Blocks {
 		if r, ok := b.Instrs[len(b.Instrs)-1].(*ssa.Return); ok && b != pop.Recover {
-			if ret != nil {
-				ret = nil
-				break
+			if len(path.ReturnValues(r)) != 1 {
+				c.und("RS2", fname, "returns the node it unlinks", c.fpos(pop), "Pop no longer returns one value")
+				return
 			}
-			ret = r
+			rets = append(rets, r)
 		}
 	}
-	if ret == nil || len(path.ReturnValues(ret)) != 1 {
-		c.und("RS2", fname, "returns the node it unlinks", c.fpos(pop), "Pop no longer has a single return of one value: the rule cannot tell which node is handed back")
-		return
-	}
-	rv := path.ReturnValues(ret)[0]
-	cell, _ := rv.(*ssa.Alloc)
 	isNext := func(v ssa.Value, base ssa.Value) bool { // v == *(&base.next)
 		u, ok := v.(*ssa.UnOp)
 		if !ok || u.Op != token.MUL {
@@ -394,68 +388,96 @@ func checkDListPop(c rc, pop, stackPop *ssa.Function, typ string) {
 			unlinks = append(unlinks, st)
 		}
 	}
-	if len(unlinks) == 0 {
+	if len(unlinks) == 0 || len(rets) == 0 {
 		c.und("RS2", fname, "returns the node it unlinks", c.fpos(pop), "no store `x.next = nil` found: Pop unlinks the last node in a way the rule does not know")
 		return
 	}
+	reaches := func(u *ssa.Store, r *ssa.Return) bool {
+		return u.Block() == r.Block() || reachableFrom(u.Block(), r.Block())
+	}
+	// (a) the returns behind an unlink
 	for _, u := range unlinks {
 		base := u.Addr.(*ssa.FieldAddr).X
 		okU := false
 		what := "nothing derived from the unlinked node"
-		if cell != nil {
-			// the last store into the returned cell in the unlink's block, before the unlink
-			var last *ssa.Store
-			for _, in := range u.Block().Instrs {
-				if in == ssa.Instruction(u) {
-					break
-				}
-				if st, ok := in.(*ssa.Store); ok && st.Addr == ssa.Value(cell) {
-					last = st
-				}
+		nR := 0
+		for _, r := range rets {
+			if !reaches(u, r) {
+				continue
 			}
-			if last != nil {
-				if ld, ok := last.Val.(*ssa.UnOp); ok && ld.Op == token.MUL && isNext(ld.X, base) {
-					okU = true
-				}
-			}
-			if !okU {
-				// what does reach the return: copies stored elsewhere
-				for _, in := range path.Instrs(pop) {
+			nR++
+			rv := path.ReturnValues(r)[0]
+			okR := false
+			if cell, isCell := rv.(*ssa.Alloc); isCell {
+				// the last store into the returned cell in the unlink's block, before the unlink
+				var last *ssa.Store
+				for _, in := range u.Block().Instrs {
+					if in == ssa.Instruction(u) {
+						break
+					}
 					if st, ok := in.(*ssa.Store); ok && st.Addr == ssa.Value(cell) {
-						if ld, ok := st.Val.(*ssa.UnOp); ok && ld.Op == token.MUL {
-							same := ld.X == base
-							if ph, ok := base.(*ssa.Phi); ok {
-								for _, e := range ph.Edges {
-									if e == ld.X {
-										same = true
+						last = st
+					}
+				}
+				if last != nil {
+					if ld, ok := last.Val.(*ssa.UnOp); ok && ld.Op == token.MUL && isNext(ld.X, base) {
+						okR = true
+					}
+				}
+				if !okR {
+					for _, in := range path.Instrs(pop) {
+						if st, ok := in.(*ssa.Store); ok && st.Addr == ssa.Value(cell) {
+							if ld, ok := st.Val.(*ssa.UnOp); ok && ld.Op == token.MUL {
+								same := ld.X == base
+								if ph, ok := base.(*ssa.Phi); ok {
+									for _, e := range ph.Edges {
+										if e == ld.X {
+											same = true
+										}
 									}
 								}
-							}
-							if same {
-								what = "a copy of the node BEFORE the one unlinked (`node = *tmp` with the unlink `tmp.next = nil`)"
+								if same {
+									what = "a copy of the node BEFORE the one unlinked (`node = *tmp` with the unlink `tmp.next = nil`)"
+								}
 							}
 						}
 					}
 				}
-			}
-		} else if isNext(rv, base) {
-			// the pointer itself, loaded before the unlink
-			if ld := rv.(*ssa.UnOp); ld.Block() == u.Block() {
-				for _, in := range u.Block().Instrs {
-					if in == ssa.Instruction(ld) {
-						okU = true
-					}
-					if in == ssa.Instruction(u) {
-						break
+			} else if isNext(rv, base) {
+				// the pointer itself, loaded before the unlink
+				if ld := rv.(*ssa.UnOp); ld.Block() == u.Block() {
+					for _, in := range u.Block().Instrs {
+						if in == ssa.Instruction(ld) {
+							okR = true
+						}
+						if in == ssa.Instruction(u) {
+							break
+						}
 					}
 				}
 			}
+			if okR {
+				okU = true
+			} else {
+				okU = false
+				break
+			}
 		}
-		c.ob("RS2", fname, "returns the node it unlinks", p.InstrPos(u), okU, "Pop unlinks x.next but hands back "+what+": the linked stack's Pop returns the value below the top (NewLinked(\"foo\"); Push(\"bar\"); Pop() yields \"foo\")")
+		c.ob("RS2", fname, "returns the node it unlinks", p.InstrPos(u), okU && nR > 0, "Pop unlinks x.next but hands back "+what+": the linked stack's Pop returns the value below the top (NewLinked(\"foo\"); Push(\"bar\"); Pop() yields \"foo\")")
 	}
-	// (b) the single-node path
+	// (b) the single-node path: a return no unlink reaches
 	okS := false
-	if cell != nil {
+	for _, r := range rets {
+		behind := false
+		for _, u := range unlinks {
+			if reaches(u, r) {
+				behind = true
+			}
+		}
+		cell, isCell := path.ReturnValues(r)[0].(*ssa.Alloc)
+		if !isCell {
+			continue
+		}
 		for _, in := range path.Instrs(pop) {
 			st, ok := in.(*ssa.Store)
 			if !ok || st.Addr != ssa.Value(cell) {
@@ -467,6 +489,9 @@ func checkDListPop(c rc, pop, stackPop *ssa.Function, typ string) {
 			}
 			head, ok := ld.X.(*ssa.FieldAddr)
 			if !ok || !isReceiverHead(pop, head) {
+				continue
+			}
+			if behind && !(st.Block() != r.Block()) {
 				continue
 			}
 			// under head.next == nil
